@@ -71,6 +71,9 @@ class Model:
     # coordinate generators
     def addr(self):
         r = self.rnd
+        if self.regime == "large":
+            return r.choice([None, r.randint(0, 4000), r.randint(0, 4000),
+                             r.randint(0, 4000)])
         if self.regime == "small":
             return r.choice([None, r.randint(0, 30), r.randint(0, 30),
                              r.randint(0, 30)])
@@ -79,12 +82,16 @@ class Model:
 
     def isize(self):
         r = self.rnd
+        if self.regime == "large":
+            return r.randint(0, 3000)
         if self.regime == "small":
             return r.randint(0, 12)
         return r.choice([0, 1, 8, 16, r.randint(0, 12), 1 << 63, U64])
 
     def off(self):
         r = self.rnd
+        if self.regime == "large":
+            return r.randint(0, 3000)
         if self.regime == "small":
             return r.randint(0, 14)
         return r.choice([0, 1, r.randint(0, 14), r.randint(0, 14),
@@ -92,6 +99,8 @@ class Model:
 
     def bsize(self):
         r = self.rnd
+        if self.regime == "large":
+            return r.choice([0, 1, 2, 4, r.randint(0, 40), r.randint(0, 400)])
         if self.regime == "small":
             return r.choice([0, 0, 1, 2, 3, r.randint(0, 6)])
         return r.choice([0, 1, 2, r.randint(0, 6), U64, 1 << 63])
@@ -140,9 +149,10 @@ class Model:
         for _ in range(3):
             yield {"op": "new_sec", "id": self.nid("S"),
                    "mod": r.choice(list(self.mods))}
-        for _ in range(r.randint(1, 4)):
+        large = self.regime == "large"
+        for _ in range(r.randint(3, 12) if large else r.randint(1, 4)):
             yield self.gen_new_iv()
-        for _ in range(r.randint(1, 6)):
+        for _ in range(r.randint(100, 900) if large else r.randint(1, 6)):
             yield self.gen_new_blk()
 
     def gen_new_iv(self):
@@ -211,9 +221,11 @@ class Model:
                 if self.blks[b]["iv"] is None:
                     return {"op": "mv_blk", "id": b, "iv": r.choice(I),
                             "via": "add"}
-            if k == "new_blk" and len(B) < 16:
+            if k == "new_blk" and len(B) < (1200 if self.regime == "large"
+                                            else 16):
                 return self.gen_new_blk()
-            if k == "new_iv" and len(I) < 8:
+            if k == "new_iv" and len(I) < (40 if self.regime == "large"
+                                           else 8):
                 return self.gen_new_iv()
             if k == "mv_sec":
                 return {"op": k, "id": r.choice(list(self.secs)),
@@ -1084,6 +1096,10 @@ def run_history(ctx, case, gt, prop, nops, regime=None, focus=None,
     import random
     rnd = case.rnd
     regime = regime or rnd.choice(["small", "small", "small", "far"])
+    if ctx.tier == "thorough" and rnd.random() < 0.01:
+        regime = "large"  # hundreds of blocks: the trees at scale
+        nqueries, check_prob = 3, 0.1
+        nops = min(nops, 40)
     model = Model(rnd, regime)
     real = Real(gt, ctx, random.Random(case.seed_str + ":uuid"))
     want = {"C05": ("C05",), "C06": ("C06",), "C13": ("C13",)}[prop]
